@@ -17,6 +17,7 @@ import (
 	"github.com/btcsuite/btcd/chaincfg/v2"
 	"github.com/btcsuite/btcd/chainhash/v2"
 	"github.com/btcsuite/btcd/peer"
+	"github.com/btcsuite/btcd/v2transport"
 	"github.com/btcsuite/btcd/wire/v2"
 )
 
@@ -232,6 +233,33 @@ func renderW(m wmsg, net wire.BitcoinNet) string {
 	return pre + m.cmd
 }
 
+// newV2Reader decrypts what the peer writes on a v2 connection.
+func newV2Reader(rp *v2transport.Peer, btcnet wire.BitcoinNet) *reader {
+	rd := &reader{}
+	rd.cond = sync.NewCond(&rd.mu)
+	go func() {
+		for {
+			pt, err := rp.V2ReceivePacket(nil)
+			if err != nil {
+				rd.finish(false)
+				return
+			}
+			msg, payload, err := wire.ReadV2MessageN(pt, wire.ProtocolVersion, wire.LatestEncoding)
+			m := wmsg{magic: uint32(btcnet), sumOK: true}
+			if err != nil {
+				m.cmd = "undecodable"
+			} else {
+				m.cmd, m.payload = msg.Command(), payload
+			}
+			rd.mu.Lock()
+			rd.msgs = append(rd.msgs, m)
+			rd.cond.Broadcast()
+			rd.mu.Unlock()
+		}
+	}()
+	return rd
+}
+
 // ---------------------------------------------------------------- remote script
 
 func rawMsg(magic uint32, cmd []byte, payload []byte, declLen uint32, fixSum bool) []byte {
@@ -299,6 +327,9 @@ func kindMsg(k string) wire.Message {
 }
 
 type hsCfg struct {
+	// transport: "" = v1 only; "v2" = peer and remote speak BIP324; "v2dg" =
+	// the peer is configured for v2 but the remote only speaks v1.
+	transport string
 	inbound   bool
 	ours      uint32
 	allowSelf bool
@@ -405,11 +436,16 @@ func runHSx(c hsCfg, toks []string, census bool) string {
 			mu.Unlock()
 		},
 	}
+	svc := wire.ServiceFlag(0)
+	if c.transport != "" {
+		svc = wire.SFNodeP2PV2
+	}
 	cfg := &peer.Config{
 		UserAgentName:    "verif",
 		UserAgentVersion: "1.0",
 		ChainParams:      params,
-		Services:         0,
+		Services:         svc,
+		UsingV2Conn:      c.transport != "",
 		ProtocolVersion:  c.ours,
 		AllowSelfConns:   c.allowSelf,
 		Listeners:        ls,
@@ -426,12 +462,44 @@ func runHSx(c hsCfg, toks []string, census bool) string {
 		}
 	}
 	pe, re := newPipe(peerAddr, remoteAddr)
-	rd := newReader(re)
+	var rd *reader
+	if c.transport != "v2" {
+		rd = newReader(re)
+	}
 	p.AssociateConnection(pe)
-
 	note := ""
 	flushes := 0
 	send := func(b []byte) { re.Write(b) }
+	if c.transport == "v2" {
+		// The remote is btcd's own v2transport endpoint in the opposite role.
+		rp := v2transport.NewPeer()
+		rp.UseReadWriter(re)
+		gl := int(nextNonce() % 64)
+		var err error
+		if c.inbound {
+			if err = rp.InitiateV2Handshake(gl); err == nil {
+				err = rp.CompleteHandshake(true, nil, v2transport.BitcoinNet(btcnet))
+			}
+		} else {
+			if err = rp.RespondV2Handshake(gl, v2transport.BitcoinNet(btcnet)); err == nil {
+				err = rp.CompleteHandshake(false, nil, v2transport.BitcoinNet(btcnet))
+			}
+		}
+		if err != nil {
+			p.Disconnect()
+			return "err:v2handshake"
+		}
+		rd = newV2Reader(rp, btcnet)
+		send = func(b []byte) {
+			// b is a well-framed v1 message: re-frame it as a v2 packet with
+			// the long (12-byte) command form.
+			pt := make([]byte, 0, 13+len(b)-24)
+			pt = append(pt, 0)
+			pt = append(pt, b[4:16]...)
+			pt = append(pt, b[24:]...)
+			rp.V2EncPacket(pt, nil, false)
+		}
+	}
 	for _, t := range toks {
 		f := strings.Split(t, ":")
 		switch f[0] {
@@ -446,7 +514,9 @@ func runHSx(c hsCfg, toks []string, census bool) string {
 					r := rd.waitFor(func(ms []wmsg) bool { return len(ms) > 0 })
 					ms, _ := rd.snapshot()
 					if r != "ok" || ms[0].cmd != "version" || len(ms[0].payload) < 80 {
-						note = " note=noversion"
+						if c.transport != "v2dg" { // a v2 peer's first bytes are its key, not a version
+							note = " note=noversion"
+						}
 					} else {
 						nonce = binary.LittleEndian.Uint64(ms[0].payload[72:80])
 					}
@@ -529,12 +599,18 @@ func runHSx(c hsCfg, toks []string, census bool) string {
 		note += " note=conn-not-closed"
 	}
 	ms, junk := rd.snapshot()
-	if junk {
-		note += " note=junk-written"
-	}
 	ws := make([]string, len(ms))
 	for i, m := range ms {
 		ws[i] = renderW(m, btcnet)
+	}
+	if junk && c.transport == "v2dg" && len(ms) == 0 {
+		// the peer answered with its ElligatorSwift key and garbage
+		ws = []string{"v2key"}
+	} else if junk {
+		note += " note=junk-written"
+	}
+	if c.transport != "" {
+		note = fmt.Sprintf(" dg=%s%s", map[bool]string{true: "1", false: "0"}[p.ShouldDowngradeToV1()], note)
 	}
 	mu.Lock()
 	defer mu.Unlock()
